@@ -164,6 +164,9 @@ fn fail_records(id: usize, sseed: u64, kmax: usize) -> Result<Vec<Value>, String
 fn one_session(kind: &str, m: &HashMap<String, String>, seed: u64, i: usize, level: &str) -> Result<Vec<String>, String> {
 
         let sseed = seed.wrapping_mul(1_000_003).wrapping_add(i as u64);
+        if kind == "tail" {
+            return Ok(vec![tail_record(i, sseed, m)?.to_string()]);
+        }
         if kind == "fail" {
             // two histories per case: A (with the failing forms) and its effects-only twin B
             let kmax: usize = get(m, "kmax", 8);
@@ -224,4 +227,110 @@ fn one_session(kind: &str, m: &HashMap<String, String>, seed: u64, i: usize, lev
         extra.push(("seed", json!(sseed)));
         let j = session_json_x(i + 1, &cells, None, &cfgs, &extra);
         return Ok(vec![j.to_string()]);
+}
+
+/// C04: one tail-call program with its non-tail twin.  Forms 1.. define both; then the loop is
+/// started with n = 10 and n = 100 (tail and twin) -- these the specification runs too; the runs
+/// with n = 1000 and n = 100000 are made by the implementation only and recorded under "big".
+fn tail_record(i: usize, sseed: u64, m: &HashMap<String, String>) -> Result<Value, String> {
+    use crate::corpus::session_json_runs;
+    use crate::sess::{outcome_json, Session};
+    let from: usize = get(m, "from", 0);
+    let stride: usize = get(m, "stride", 1);
+    let mode = m.get("mode").cloned().unwrap_or("enum".into());
+    let mut rng = crate::rng::Rng::new(sseed);
+    let idx = if mode == "enum" { from + i * stride } else { crate::gen_tail::single_space() + i };
+    let p = crate::gen_tail::nth(idx, &mut rng);
+    let mut forms: Vec<String> = vec!["(define cnt 0)".into(), "(define acc 0)".into()];
+    forms.extend(p.defs_tail.iter().cloned());
+    forms.extend(p.defs_twin.iter().cloned());
+    let start = |n: usize, call: &str| format!("(begin (set! cnt {}) (set! acc 0) {})", n, call);
+    let base = forms.len();
+    forms.push(start(10, &p.start_tail)); // base+1
+    forms.push(start(100, &p.start_tail)); // base+2
+    forms.push(start(10, &p.start_twin)); // base+3
+    forms.push(start(100, &p.start_twin)); // base+4
+    let cs = cells(&forms)?;
+    let cfg = RunCfg::plain();
+    // the session itself
+    let mut s = Session::new(&cfg);
+    s.install_sched(&cfg.sched);
+    let mut obs = vec![];
+    for f in &cs {
+        let sp0 = s.vm.verif_stack().get_sp();
+        s.vm.verif_reset_counters();
+        let (o, _) = s.eval(f, &cfg);
+        let mut j = outcome_json(&o);
+        j["out"] = json!([]);
+        j["sp0"] = json!(sp0);
+        j["maxsp"] = json!(s.vm.verif.max_sp);
+        j["instr"] = json!(s.vm.verif.instr);
+        obs.push(j);
+        if s.dead {
+            break;
+        }
+    }
+    // big iteration counts, implementation only
+    let mut big = vec![];
+    if !s.dead {
+        for n in [1000usize, 100000] {
+            let mut rec = json!({"n": n});
+            for (key, call) in [("tail", &p.start_tail), ("twin", &p.start_twin)] {
+                // a non-tail loop through call/cc copies the whole stack per iteration (quadratic memory)
+                if key == "twin" && n > 1000 && p.desc.contains("call/cc") {
+                    continue;
+                }
+                let c = cells(&[start(n, call)])?;
+                // a loop of tail calls that needs more than 50000 stack slots has failed already;
+                // the twin legitimately needs about 6n slots
+                s.sp_limit.set(if key == "tail" { 50_000 } else { 2_000_000 });
+                s.instr_limit.set(2_000_000_000);
+                let sp0 = s.vm.verif_stack().get_sp();
+                s.vm.verif_reset_counters();
+                let (o, _) = s.eval(&c[0], &cfg);
+                let mut j = outcome_json(&o);
+                j["maxsp"] = json!(s.vm.verif.max_sp as i64 - sp0 as i64);
+                rec[key] = j;
+                if s.dead {
+                    // the watchdog unwound the VM in mid-evaluation: continue in a fresh one
+                    s = Session::new(&cfg);
+                    s.install_sched(&cfg.sched);
+                    for f in cs.iter().take(base) {
+                        let _ = s.eval(f, &cfg);
+                    }
+                    s.dead = false;
+                }
+            }
+            big.push(rec);
+        }
+    }
+    // W: the widest list in the program text
+    fn width(c: &marwood::cell::Cell) -> usize {
+        match c {
+            marwood::cell::Cell::Pair(_, _) => {
+                let mut n = 0;
+                let mut w = 0;
+                let mut r = c;
+                while let marwood::cell::Cell::Pair(a, d) = r {
+                    n += 1;
+                    w = w.max(width(a));
+                    r = d;
+                }
+                w.max(n)
+            }
+            marwood::cell::Cell::Vector(v) => v.iter().map(width).max().unwrap_or(0).max(v.len()),
+            _ => 0,
+        }
+    }
+    let w = cs.iter().map(width).max().unwrap_or(1);
+    let extra = vec![
+        ("tags", json!([format!("tail:{}", p.desc)])),
+        ("kind", json!("tail")),
+        ("seed", json!(sseed)),
+        ("w", json!(w)),
+        ("tailpairs", json!([[base + 1, base + 2]])),
+        ("tailforms", json!([base + 1, base + 2])),
+        ("big", json!(big)),
+    ];
+    Ok(session_json_runs(i + 1, &cs, None, vec![("plain".into(), obs)], &extra))
 }
